@@ -156,7 +156,7 @@ func treeDiffLine(before, after string) string {
 
 func init() {
 	lanes["bundle-roundtrip"] = func(cfg *Config, rep *Report) {
-		rep.Rule = "error-free scripted worlds (as in the builder lane; package trees with an empty directory, 0755/0600 files, an in-package relative link, a non-ASCII name, and - for half of the contents - a rule file re-including .terraform); the finished bundle is (a) opened again with OpenDir, (b) written with WriteArchive and extracted with ExtractArchive into another directory; the directory is also re-opened - and, for every other world, the archive extracted - under a name that goes through a symbolic link (<work>/rtl<N> -> '.'), lookups taken relative to the root that was passed, paths spelled under that root translated to addresses and back; compared: all accessors, ChecksumV1, every lookup relative to the root, recursive tree listing (modes included); with -umask the re-opening, archiving and extraction run under that umask (the world is built under 022); non-trivial = has a registry package or metadata; distinct by (world, ops)"
+		rep.Rule = "error-free scripted worlds (as in the builder lane; package trees with an empty directory, 0755/0600 files, an in-package relative link, a non-ASCII name, and - for half of the contents - a rule file re-including .terraform); the finished bundle is (a) opened again with OpenDir, (b) written with WriteArchive and extracted with ExtractArchive into another directory; every third world is also written into a destination that fails after k bytes (two k per world, in turn: 11 and 40 before the end; 300 and 9 before the end; 10 and 24 before the end): WriteArchive returns an error or what it wrote extracts to an indistinguishable bundle; the directory is also re-opened - and, for every other world, the archive extracted - under a name that goes through a symbolic link (<work>/rtl<N> -> '.'), lookups taken relative to the root that was passed, paths spelled under that root translated to addresses and back; compared: all accessors, ChecksumV1, every lookup relative to the root, recursive tree listing (modes included); with -umask the re-opening, archiving and extraction run under that umask (the world is built under 022); non-trivial = has a registry package or metadata; distinct by (world, ops)"
 		r := NewRng(cfg.Seed)
 		richContent = true
 		defer func() { richContent = false }()
@@ -168,7 +168,7 @@ func init() {
 		umask := laneUmask(cfg)
 		syscall.Umask(022)
 		done := 0
-		runWorldUnder := func(w *BWorld, ops []BOp, umask int) bool {
+		runWorldUnder := func(w *BWorld, ops []BOp, umask int, failAfter []int) bool {
 			target := filepath.Join(cfg.Work, fmt.Sprintf("rt%05d", done))
 			os.MkdirAll(target, 0755)
 			env := newEnv(w)
@@ -184,7 +184,7 @@ func init() {
 				um = fmt.Sprintf("%03o", umask)
 				rep.Count("outside-model:umask")
 			}
-			c := &rtCase{bCase: &bCase{World: w, Ops: ops}, Umask: um}
+			c := &rtCase{bCase: &bCase{World: w, Ops: ops}, Umask: um, FailAfter: failAfter}
 			nt := len(w.Regs) > 0
 			for _, p := range w.Pkgs {
 				if p.HasMeta {
@@ -248,6 +248,44 @@ func init() {
 				rep.Count("archived")
 				chmodAll(other)
 				os.RemoveAll(other)
+				// (b'') a destination that fails (disk full, closed pipe) after k bytes, for several k: WriteArchive
+				// returns an error, or what it wrote extracts to an indistinguishable bundle (seed C09-h: the
+				// errors of the final flush of the tar and gzip writers discarded, so that a truncated archive
+				// was reported as written). v >= 0: k = v; v < 0: k = len(archive) + v
+				size := buf.Len()
+				nBefore := rep.OracleFailCount
+				for _, v := range failAfter {
+					k := v
+					if v < 0 {
+						k = size + v
+					}
+					if k < 0 || k >= size {
+						continue
+					}
+					fw := &failingWriter{room: k}
+					werr := run.bundle.WriteArchive(fw)
+					rep.Count("archived-to-failing-writer")
+					if werr != nil {
+						continue
+					}
+					rep.Count("archived-to-failing-writer:reported-success")
+					otherF := filepath.Join(cfg.Work, fmt.Sprintf("rxf%05d", done))
+					os.MkdirAll(otherF, 0755)
+					os.Chmod(otherF, 0755)
+					where := fmt.Sprintf("WriteArchive returns nil although its destination failed after %d of the %d bytes of the archive (write error: no space left); ", k, size)
+					if b5, err := sourcebundle.ExtractArchive(bytes.NewReader(fw.buf.Bytes()), otherF); err != nil {
+						fail(where + fmt.Sprintf("ExtractArchive of the %d bytes it wrote fails: %v", fw.buf.Len(), err))
+					} else if got := bundleCanon(b5, otherF, w, ops); got != want {
+						fail(where + "the bundle extracted from what it wrote differs from the original: " + canonDiff(want, got))
+					} else if gotTree := treeListing(otherF); gotTree != wantTree {
+						fail(where + "the files extracted from what it wrote differ: " + treeDiffLine(wantTree, gotTree))
+					}
+					chmodAll(otherF)
+					os.RemoveAll(otherF)
+					if rep.OracleFailCount > nBefore {
+						break // one report per world
+					}
+				}
 				// (b') every other world: extracted once more into a directory named through the link
 				if viaLink && done%2 == 1 {
 					otherL := filepath.Join(lnk, fmt.Sprintf("rxl%05d", done))
@@ -275,20 +313,29 @@ func init() {
 			return true
 		}
 		// exact replay (-case): the recorded world and Add calls go first
-		runWorld := func(w *BWorld, ops []BOp) bool { return runWorldUnder(w, ops, umask) }
+		// every third world is also archived into a destination that fails after k bytes: just past the 10-byte
+		// gzip header, early, and inside the last 40 bytes (the final flush of the compressor)
+		runWorld := func(w *BWorld, ops []BOp) bool {
+			var fa []int
+			if done%3 == 0 {
+				fa = rtFailAfter[(done/3)%len(rtFailAfter)]
+			}
+			return runWorldUnder(w, ops, umask, fa)
+		}
 		if rc := loadReplayedBCase(cfg, rep, "bundle-roundtrip"); rc != nil {
 			rep.BeginReplay()
 			// the replayed case runs under the umask it was recorded under
 			ru := umask
 			var ext struct {
-				Umask string `json:"umask"`
+				Umask     string `json:"umask"`
+				FailAfter []int  `json:"fail_after"`
 			}
 			if loadReplayInput(cfg, "bundle-roundtrip", &ext) && ext.Umask != "" {
 				if v, err := strconv.ParseUint(ext.Umask, 8, 12); err == nil {
 					ru = int(v) & 0777
 				}
 			}
-			if !runWorldUnder(rc.World, rc.Ops, ru) {
+			if !runWorldUnder(rc.World, rc.Ops, ru, ext.FailAfter) {
 				rep.Replayed.Note = "the build of the recorded world fails on this tree (the lane only judges finished bundles)"
 			}
 			rep.EndReplay()
@@ -339,6 +386,29 @@ func spelledUnderRoot(rep *Report, c *rtCase, orig *sourcebundle.Bundle, origRoo
 type rtCase struct {
 	*bCase
 	Umask string `json:"umask,omitempty"`
+	// FailAfter: the archive was also written into destinations that fail after k bytes (v >= 0: k = v;
+	// v < 0: k = archive length + v); a replay makes the same writes
+	FailAfter []int `json:"fail_after,omitempty"`
+}
+
+var rtFailAfter = [][]int{{11, -40}, {300, -9}, {10, -24}}
+
+// failingWriter accepts room bytes and then fails every write (a full disk): the bytes that fit are kept
+type failingWriter struct {
+	room int
+	buf  bytes.Buffer
+}
+
+func (f *failingWriter) Write(p []byte) (int, error) {
+	if len(p) <= f.room {
+		f.room -= len(p)
+		f.buf.Write(p)
+		return len(p), nil
+	}
+	n := f.room
+	f.buf.Write(p[:n])
+	f.room = 0
+	return n, fmt.Errorf("write archive: no space left on device")
 }
 
 func chmodAll(root string) {
